@@ -18,6 +18,7 @@ import (
 	"path/filepath"
 	"strings"
 	"sync"
+	"sync/atomic"
 	"syscall"
 	"testing"
 	"time"
@@ -507,6 +508,7 @@ func TestVerifC14(t *testing.T) {
 	}
 	res.Obs("request_classes", int64(len(classes)))
 	legacyEquivalence(res, root)
+	concurrentLoad(res, root)
 	for _, m := range []string{"GET", "POST", "OPTIONS", "HEAD", "FOO"} {
 		found := false
 		for c := range classes {
@@ -533,6 +535,127 @@ func TestVerifC14(t *testing.T) {
 	}
 	res.RequireObs("health_probes", 5)
 	res.RequireObs("legacy_equivalence_pairs", 20)
+	res.RequireObs("concurrent_load_state_reads", 200)
+	res.RequireObs("concurrent_load_matches", 50)
+}
+
+// concurrentLoad: well-formed requests only, but all at once: hundreds of idle
+// proxy polls keep the broker's registration tables large while pair loops
+// (proxy poll, client poll, answer) insert and delete entries and reader loops
+// fetch /debug, /metrics and /prometheus without pause. Every request must get
+// a complete response and the process must survive ("no request makes the
+// broker crash or mishandle later requests" holds for concurrent requests too).
+func concurrentLoad(res *vlib.Result, root *vlib.Rand) {
+	b, err := startBroker("concurrent")
+	if err != nil {
+		res.Inconcl("cannot start broker for the concurrent load: " + err.Error())
+		return
+	}
+	defer b.stop()
+	dur := time.Duration(vlib.Scale(7, 40)) * time.Second
+	stopAt := time.Now().Add(dur)
+	var wg sync.WaitGroup
+	var reads, matches, bad int64
+	var firstBad atomic.Value
+	note := func(kind string, rp rawResp, err error) {
+		atomic.AddInt64(&bad, 1)
+		if firstBad.Load() == nil {
+			firstBad.Store(fmt.Sprintf("%s: err=%v response=%+v", kind, err, rp.Err))
+		}
+	}
+	one := func(kind string, rq *rawReq, wait time.Duration) (rawResp, bool) {
+		rs, err := exchange(b.addr, []*rawReq{rq}, wait)
+		if err != nil || len(rs) != 1 || rs[0].Err != "" {
+			var rp rawResp
+			if len(rs) == 1 {
+				rp = rs[0]
+			}
+			note(kind, rp, err)
+			return rp, false
+		}
+		return rs[0], true
+	}
+	nIdle := vlib.Scale(400, 1500)
+	for i := 0; i < nIdle; i++ {
+		wg.Add(1)
+		go func(i int) {
+			defer wg.Done()
+			// idle polls re-register until the phase ends, so the tables stay large and change
+			for n := 0; time.Now().Before(stopAt); n++ {
+				j, _ := json.Marshal(map[string]interface{}{"Sid": fmt.Sprintf("idle-%d-%d", i, n), "Version": "1.3", "Type": "standalone", "NAT": "restricted", "Clients": 8, "AcceptedRelayPattern": "snowflake.torproject.net$"})
+				one("idle-poll", &rawReq{Method: "POST", Target: "/proxy", body: j}, 40*time.Second)
+			}
+		}(i)
+	}
+	for w := 0; w < 8; w++ {
+		wg.Add(2)
+		go func(w int) { // proxy side of the pair loops
+			defer wg.Done()
+			for n := 0; time.Now().Before(stopAt); n++ {
+				sid := fmt.Sprintf("pair-%d-%d", w, n)
+				j, _ := json.Marshal(map[string]interface{}{"Sid": sid, "Version": "1.3", "Type": "standalone", "NAT": "unrestricted", "Clients": 0, "AcceptedRelayPattern": "snowflake.torproject.net$"})
+				rp, ok := one("pair-poll", &rawReq{Method: "POST", Target: "/proxy", body: j}, 40*time.Second)
+				if ok && strings.Contains(string(rp.body), "CL-OFFER") {
+					if _, ok := one("answer", &rawReq{Method: "POST", Target: "/answer", body: []byte(`{"Version":"1.3","Sid":"` + sid + `","Answer":"CL-ANSWER"}`)}, 40*time.Second); ok {
+						atomic.AddInt64(&matches, 1)
+					}
+				}
+			}
+		}(w)
+		go func(w int) { // client side
+			defer wg.Done()
+			for n := 0; time.Now().Before(stopAt); n++ {
+				body := []byte("1.0\n" + fmt.Sprintf(`{"offer":"{\"type\":\"offer\",\"sdp\":\"CL-OFFER-%d-%d\"}","nat":"restricted"}`, w, n))
+				one("client", &rawReq{Method: "POST", Target: "/client", body: body}, 40*time.Second)
+			}
+		}(w)
+	}
+	for w := 0; w < 6; w++ {
+		wg.Add(1)
+		go func(w int) {
+			defer wg.Done()
+			targets := []string{"/debug", "/debug", "/prometheus", "/metrics"}
+			for n := 0; time.Now().Before(stopAt); n++ {
+				tg := targets[(w+n)%len(targets)]
+				if rp, ok := one("read "+tg, &rawReq{Method: "GET", Target: tg}, 40*time.Second); ok {
+					if rp.Status != 200 {
+						note("read "+tg, rawResp{Err: fmt.Sprintf("status %d", rp.Status)}, nil)
+					}
+					atomic.AddInt64(&reads, 1)
+				}
+			}
+		}(w)
+	}
+	done := make(chan struct{})
+	go func() { wg.Wait(); close(done) }()
+	select {
+	case <-done:
+	case <-time.After(dur + 90*time.Second):
+		res.Inconcl("concurrent load: workers did not finish within 90 s after the phase ended")
+	}
+	res.Eval(atomic.LoadInt64(&reads) + atomic.LoadInt64(&matches))
+	res.Obs("concurrent_load_state_reads", atomic.LoadInt64(&reads))
+	res.Obs("concurrent_load_matches", atomic.LoadInt64(&matches))
+	res.Obs("concurrent_load_idle_pollers", int64(nIdle))
+	res.Distinct("concurrent-load")
+	rec := map[string]interface{}{"case": "concurrent-load", "idle_pollers": nIdle, "state_reads": atomic.LoadInt64(&reads), "matches": atomic.LoadInt64(&matches), "requests_without_wellformed_response": atomic.LoadInt64(&bad)}
+	if !b.alive() {
+		rec["stderr_panics"] = b.panicLines()
+		res.Violate("c14:broker-process-died:concurrent-requests", "the broker process exited while serving concurrent well-formed requests (state reads during registrations and matches)", rec)
+		return
+	}
+	if n := atomic.LoadInt64(&bad); n > 0 {
+		fb, _ := firstBad.Load().(string)
+		rec["first"] = fb
+		res.Violate("c14:no-well-formed-response:concurrent-requests", fmt.Sprintf("%d concurrent well-formed requests got no well-formed response, first: %s", n, fb), rec)
+	}
+	if msg := healthProbe(b.addr, "after-concurrent-load"); msg != "" {
+		res.Violate("c14:later-requests-mishandled", "after the concurrent load: "+msg, rec)
+	}
+	if pl := b.panicLines(); len(pl) > 0 {
+		res.Violate("c14:handler-panic", fmt.Sprintf("%d 'http: panic serving' lines on the broker's stderr during the concurrent load, e.g. %s", len(pl), pl[0]), rec)
+	}
+	res.Sample(4, rec)
 }
 
 func sigClass(rq *rawReq) string {
